@@ -519,6 +519,8 @@ class Forced:
             self.stuck.add(id(done))
 
     def _wait_all_done(self):
+        if self.stuck:
+            return   # some thread waits for something the reader may hold: waiting here for it (or for threads behind it) would deadlock
         for k, _th, done, _blocked in self.started:
             if (self.opened[k] and not self.go[k].is_set()) or id(done) in self.stuck:
                 continue    # an open transaction that has not been told to commit yet / a thread waiting for something untraced
